@@ -463,6 +463,8 @@ def concurrent_registration(ctx, seed, policy, p_switch, ncb):
 
 
 def run(ctx):
+    from rv import suiterun
+    suiterun.for_check(ctx, PROPERTY, ['results_completed'])
     rng = ctx.rng
     for i in range(ctx.budget(500, 80000)):
         concurrent_registration(ctx, (ctx.seed, ctx.shard[0], i), "random" if i % 3 else "pct", rng.choice([0.1, 0.3, 0.6]), rng.choice([1, 2, 3]))
